@@ -73,6 +73,9 @@ def _run_unit(job):
         out["paths"] = ex.paths
         out["completed"] = ex.completed
         out["covers"] = {k: any(v) for k, v in ex.covers.items()}
+        for r in res:
+            if r.label in ("unsupported", "uncaught-exception", "path-budget"):
+                r.label = f"{out['unit']}::{r.label}"
         out["results"] = [dict(label=r.label, status=r.status, backend=r.backend, time_s=round(r.time_s, 4), model=r.model,
                                detail=r.detail, path=list(r.path)[:64], smt2=(r.smt2 if r.status != "proved" else None)) for r in res]
         out["stats"] = dict(STATS)
@@ -192,9 +195,10 @@ def main(argv=None):
         executed.update(o["executed"])
         if not o["results"]:
             checker_errors.append(f"{o['unit']}: zero obligations generated")
-        if o["covers"] and not any(o["covers"].values()):
+        all_proved = all(r["status"] == "proved" for r in o["results"])
+        if all_proved and o["covers"] and not any(o["covers"].values()):
             vacuity.append(o["unit"])
-        if not o["covers"] and o.get("completed", 0) == 0 and not any(r["status"] != "proved" for r in o["results"]):
+        if all_proved and not o["covers"] and o.get("completed", 0) == 0:
             vacuity.append(o["unit"])
         for r in o["results"]:
             g = ob.setdefault(r["label"], {"label": r["label"], "unit": o["unit"], "instances": 0, "proved": 0, "refuted": [], "undecided": [], "time_s": 0.0})
@@ -259,6 +263,30 @@ def main(argv=None):
             if kf is not None and kf.get("undecided_ok"):
                 known_hits.append((kf, {"obligation": label}))
                 continue
+            # an obligation the solver could not decide: try the native replay on the relaxed candidate model (or on
+            # the replay's default witness); only a natively confirmed failure becomes a violation
+            u, case = units_by_name.get(g["unit"], (None, None))
+            confirmed, info, used = False, None, r0
+            if u is not None:
+                for r in g["undecided"][:4]:
+                    try:
+                        rep = u.replay(r["model"] or {}, label.split("::")[-1], case)
+                    except Exception as e:
+                        rep = None
+                    if rep is not None and rep[0]:
+                        confirmed, info, used = True, rep[1], r
+                        break
+            if confirmed:
+                replay_path = os.path.join("replays", f"{prop}-{hashlib.sha1(label.encode()).hexdigest()[:10]}.json")
+                rec = {"property": prop, "obligation": label, "unit": g["unit"], "model": used["model"], "path": used["path"],
+                       "backend": used["backend"], "native_replay": info, "confirmed_natively": True, "solver_status": "unknown",
+                       "smt2": used.get("smt2"), "replay_cmd": f"./check --replay {replay_path}"}
+                if kf is not None:
+                    known_hits.append((kf, rec))
+                    continue
+                json.dump(rec, open(os.path.join(ROOT, replay_path), "w"), indent=1, default=str)
+                violations.append((label, replay_path, ""))
+                continue
             undecided.append((label, r0["detail"] or "solver returned unknown", r0))
 
     # baseline drift: an obligation proved on the baseline tree that disappeared => the code changed shape
@@ -280,8 +308,11 @@ def main(argv=None):
             json.dump({"property": prop, **v, "replay_cmd": f"./check --replay {replay_path}"}, open(os.path.join(ROOT, replay_path), "w"), indent=1, default=str)
             b_viol.append((v["obligation"], replay_path, ""))
 
-    n_ob = sum(g["instances"] for g in ob.values())
-    n_dis = sum(g["proved"] for g in ob.values())
+    kf_labels = {kf["obligation"] for kf, _ in known_hits}
+    # obligations of listed known findings are reported separately, never counted as discharged
+    n_ob = sum(g["instances"] for l, g in ob.items() if l not in kf_labels)
+    n_dis = sum(g["proved"] for l, g in ob.items() if l not in kf_labels)
+    n_kf_inst = sum(g["instances"] for l, g in ob.items() if l in kf_labels)
     n_labels = len(ob)
     n_labels_proved = sum(1 for g in ob.values() if g["proved"] == g["instances"])
 
@@ -333,7 +364,8 @@ def main(argv=None):
             "function_bodies_executed": {k: v for k, v in sorted(executed.items())},
             "extraction_drops": "type annotations, docstrings, caching decorators (lru_cache/cache), abc/typing machinery; generators and generator expressions are evaluated eagerly",
             "undecided": [{"obligation": l, "why": w[:300]} for l, w, _ in undecided],
-            "known_findings_hit": [kf["obligation"] for kf, _ in known_hits],
+            "known_findings_hit": sorted(kf_labels), "known_finding_obligation_instances_excluded_from_counts": n_kf_inst,
+            "alternatives_dropped": dropped_alts,
             "bounded": [{k: v for k, v in r.items() if k not in ("violations", "samples")} for r in bounded],
             "evaluations": b_evals + n_ob, "distinct_nontrivial": max(2, n_labels + sum(r.get("distinct_nontrivial", 0) for r in bounded)) if (n_labels or bounded) else 0,
             "rule": "one obligation instance per contract clause per feasible path of the real function body; distinct = distinct obligation labels (+ distinct non-trivial cases of each bounded stand-in as counted by it)",
